@@ -765,3 +765,162 @@ def histogram(cases):
 
 def case_signature(case):
     return json.dumps([case["cfg"].get("nhosts", 1), case["steps"]], sort_keys=True)
+
+
+# ---------------------------------------------------------------------------
+# rendering for the Coq model TV.Fs.FsImpl and comparison of observations
+
+ERRNO_CODE = {ENOENT: 1, EEXIST: 2, ENOTEMPTY: 3, EISDIR: 4, ENOTDIR: 5, EBADF: 6, EINVAL: 7}
+_extra_names = {}
+
+
+def name_id(c):
+    if c in NAMES:
+        return NAMES[c]
+    if c not in _extra_names:
+        _extra_names[c] = 100 + len(_extra_names)
+    return _extra_names[c]
+
+
+def coq_path(p):
+    return "[" + "; ".join(str(name_id(c)) for c in comps(p)) + "]"
+
+
+def coq_bytes(b):
+    return "[" + "; ".join(str(x) for x in b) + "]"
+
+
+def coq_bool(b):
+    return "true" if b else "false"
+
+
+def coq_z(n):
+    return "(%d)%%Z" % n
+
+
+def coq_op(st, dec, universe):
+    """One script step -> Coq term of type (nat * op) (None for tick-less hosts)."""
+    name = st[0].split("@")[0]
+    coin = coq_bool(any(d[0] == "coin" and d[1] for d in dec))
+    if name == "tick":
+        return "(0%nat, Tick)"
+    h = st[1]
+
+    def mk(body):
+        return "(%d%%nat, %s)" % (h, body)
+    if name == "open":
+        f = st[4]
+        return mk("Open %d %s %s %s %s %s %s %s" % (st[2], coq_path(st[3]), coq_bool("r" in f), coq_bool("w" in f),
+                                                   coq_bool("a" in f), coq_bool("t" in f), coq_bool("c" in f), coq_bool("n" in f)))
+    if name == "close":
+        return mk("Close %d" % st[2])
+    if name == "write_at":
+        return mk("WriteAt %d %d %s %s" % (st[2], st[3], coq_bytes(st[4]), coin))
+    if name == "read_at":
+        return mk("ReadAt %d %d %d" % (st[2], st[3], st[4]))
+    if name == "write":
+        return mk("Write %d %s %s" % (st[2], coq_bytes(st[3]), coin))
+    if name == "read":
+        return mk("Read %d %d" % (st[2], st[3]))
+    if name == "seek":
+        return mk("Seek %d %d %s" % (st[2], st[3], coq_z(st[4])))
+    if name == "set_len":
+        return mk("SetLen %d %d %s" % (st[2], st[3], coin))
+    if name == "sync_all":
+        return mk("SyncAll %d" % st[2])
+    if name == "sync_data":
+        return mk("SyncData %d" % st[2])
+    if name == "flen":
+        return mk("FLen %d" % st[2])
+    simple = {"sync_dir": "SyncDir", "mkdir": "Mkdir", "mkdir_all": "MkdirAll", "rmdir": "Rmdir", "rmdir_all": "RmdirAll",
+              "unlink": "Unlink", "stat": "Stat", "exists": "Exists", "readdir": "Readdir", "slurp": "Slurp"}
+    if name in simple:
+        return mk("%s %s" % (simple[name], coq_path(st[2])))
+    if name == "rename":
+        return mk("Rename %s %s" % (coq_path(st[2]), coq_path(st[3])))
+    if name == "spit":
+        return mk("Spit %s %s %s" % (coq_path(st[2]), coq_bytes(st[3]), coin))
+    if name == "dump":
+        return mk("Dump [%s]" % "; ".join(coq_path(p) for p in universe))
+    if name == "crash":
+        draws = [d[2] for d in dec if d[0] == "torn"]
+        return mk("Crash [%s]" % "; ".join("%d%%nat" % x for x in draws))
+    raise ValueError("unknown op %r" % (st,))
+
+
+def to_model(case, obs):
+    cfg = case["cfg"]
+    uni = cfg.get("universe", UNIVERSE)
+    decs = obs.get("decisions") or [[] for _ in case["steps"]]
+    problems = []
+    evs = []
+    for i, st in enumerate(case["steps"]):
+        dec = decs[i] if i < len(decs) else []
+        nm = st[0].split("@")[0]
+        if nm != "crash" and any(d[0] == "torn" for d in dec):
+            problems.append("step %d: torn-write draws outside a crash" % i)
+        if nm not in ("write_at", "write", "set_len", "spit") and any(d[0] == "coin" for d in dec):
+            problems.append("step %d: sync coin outside write/set_len" % i)
+        evs.append(coq_op(st, dec, uni))
+    bs = cfg.get("block_size") or 0
+    term = "hrun_enc %d%%nat %d%%nat [%s]" % (cfg.get("nhosts", 1), bs, "; ".join(evs))
+    return term, None, problems
+
+
+def canon_obs(st, o):
+    """Implementation observation of one step -> the tuple shape of enc_out."""
+    name = st[0].split("@")[0]
+    if name == "dump":
+        rows = []
+        for r in o:
+            kind = {"none": 0, "file": 1, "dir": 2}.get(r[1], 3)
+            if kind == 1:
+                data = r[2] if isinstance(r[2], list) and (not r[2] or isinstance(r[2][0], int)) else [-1]
+                ln = r[4]
+            elif kind == 2:
+                data = [name_id(x) for x in r[2]] if isinstance(r[2], list) and (not r[2] or isinstance(r[2][0], str)) else [-1]
+                ln = 0
+            else:
+                data, ln = [], 0
+            rows.append((kind, list(data), bool(r[3]), ln))
+        return (9, 0, [], rows)
+    if o[0] == "err":
+        return (7, ERRNO_CODE.get(impl_errno(o), 99), [], [])
+    if o[0] == "noslot":
+        return (8, 0, [], [])
+    if o[0] == "file":
+        return (5, o[1], [], [])
+    if o[0] == "dir":
+        return (6, 0, [], [])
+    if o[0] == "ok":
+        if len(o) == 1:
+            return (0, 0, [], [])
+        v = o[1]
+        if isinstance(v, bool):
+            return (4, 1 if v else 0, [], [])
+        if isinstance(v, int):
+            return (1, v, [], [])
+        if name == "readdir":
+            return (3, 0, [name_id(x) for x in v], [])
+        return (2, 0, list(v), [])
+    return (99, 0, [], [])
+
+
+def canon_model(m):
+    tag, num, b, rows = m
+    return (tag, num, list(b), [(r[0], list(r[1]), bool(r[2]), r[3]) for r in rows])
+
+
+def compare(case, obs, model, probes):
+    if obs.get("panic"):
+        return "implementation panicked: %s" % obs["panic"]
+    if isinstance(model, tuple) and model and model[0] == "error":
+        return "model evaluation failed: %s" % str(model[1])[-400:]
+    if len(model) != len(case["steps"]):
+        return "model produced %d outputs for %d steps" % (len(model), len(case["steps"]))
+    for i, st in enumerate(case["steps"]):
+        a = canon_obs(st, obs["obs"][i])
+        b = canon_model(model[i])
+        if a != b:
+            return "step %d %s: implementation %s, model %s" % (i, json.dumps(st), a, b)
+    return None
